@@ -13,15 +13,21 @@ use std::sync::Arc;
 pub struct Mon {
     pub max_sends: usize,
     pub stagger_ms: u64,
+    /// gap before every second request (the others use `stagger_ms`); 0 = always `stagger_ms`
+    pub stagger2_ms: u64,
     pub with_reply: bool,
     pub detail: TimeDetail,
     /// per request: (transmissions, finals) before the current step
     before: Vec<(usize, usize)>,
+    /// independent RFC 6298 estimate fed by the observed history (samples of requests completed without retransmission,
+    /// reset after more than 600 s without a request): the interval every new request must run on
+    reference: Option<super::c15::Ref6298>,
+    last_request_at: Option<u64>,
 }
 
 impl Mon {
     pub fn new(max_sends: usize, stagger_ms: u64, with_reply: bool, detail: TimeDetail) -> Mon {
-        Mon { max_sends, stagger_ms, with_reply, detail, before: vec![] }
+        Mon { max_sends, stagger_ms, stagger2_ms: 0, with_reply, detail, before: vec![], reference: None, last_request_at: None }
     }
 }
 
@@ -31,7 +37,9 @@ fn slot_name(k: usize) -> String {
 
 impl Monitor for Mon {
     fn fresh(&self) -> Box<dyn Monitor> {
-        Box::new(Mon::new(self.max_sends, self.stagger_ms, self.with_reply, self.detail))
+        let mut m = Mon::new(self.max_sends, self.stagger_ms, self.with_reply, self.detail);
+        m.stagger2_ms = self.stagger2_ms;
+        Box::new(m)
     }
     fn needs_snapshots(&self) -> bool {
         true
@@ -39,11 +47,42 @@ impl Monitor for Mon {
     fn on_step(&mut self, w: &World, st: &Step, rep: Option<(&mut Report, &[Event])>) {
         let before = std::mem::take(&mut self.before);
         self.before = w.reqs.iter().map(|r| (r.tx_times.len(), r.finals.len())).collect();
+        // ---- independent estimate of the interval a new request runs on (bookkeeping also while replaying) ----
+        let mut interval_verdict: Option<(usize, f64, f64)> = None;
+        if let Transport::Unreliable { rto_ms, gran_ms, .. } = w.cfg.transport {
+            let reference = self.reference.get_or_insert_with(|| super::c15::Ref6298::new((rto_ms * MS) as f64, (gran_ms * MS) as f64));
+            if let (Event::Send { .. }, CallRes::SendOk(i)) = (st.ev, &st.obs.res) {
+                if let Some(prev) = self.last_request_at {
+                    if w.now - prev > 600_000 * MS {
+                        reference.reset();
+                    }
+                }
+                self.last_request_at = Some(w.now);
+                interval_verdict = Some((*i, w.reqs[*i].rto_ns as f64, reference.rto));
+            }
+            for (i, r) in w.reqs.iter().enumerate() {
+                let (tx_b, fin_b) = before.get(i).copied().unwrap_or((0, 0));
+                if fin_b == 0 && !r.finals.is_empty() && matches!(r.finals[0].1, FinalKind::Delivered(_) | FinalKind::Retry) && tx_b == 1 && r.tx_times.len() == 1 && w.now > r.t0 {
+                    reference.sample((w.now - r.t0) as f64);
+                }
+            }
+        }
         let Some((rep, hist)) = rep else { return };
         let replay = || explore::history_replay(w, hist, st.obs);
         if let CallRes::Panic(p) = &st.obs.res {
             rep.violate(format!("client-panics/{}", crate::util::panic_site(p)), p.clone(), replay());
             return;
+        }
+        if let Some((i, got, want)) = interval_verdict {
+            if (got - want).abs() > 1e-5 * want + 1000.0 {
+                rep.violate(
+                    format!("request-runs-on-an-interval-other-than-the-rfc6298-estimate/{}", if got > want { "too-long" } else { "too-short" }),
+                    format!("T{}: client {} ns, independent estimate {:.1} ns", i, got, want),
+                    replay(),
+                );
+            } else {
+                rep.sym("initial-interval-matches-independent-estimate");
+            }
         }
         let t = w.now;
         let is_timer = matches!(st.ev, Event::Timer | Event::TimerAt(_));
@@ -156,7 +195,8 @@ impl Monitor for Mon {
         }
         if w.reqs.len() < self.max_sends {
             // the next request starts `stagger` after the previous one, or right after it finished
-            let t = w.reqs.last().unwrap().t0 + self.stagger_ms * MS;
+            let gap = if self.stagger2_ms > 0 && w.reqs.len() % 2 == 0 { self.stagger2_ms } else { self.stagger_ms };
+            let t = w.reqs.last().unwrap().t0 + gap * MS;
             if w.now == t || w.awaiting().is_empty() {
                 v.push(Event::Send { app: 0 });
             } else if w.now < t {
@@ -281,6 +321,23 @@ pub fn run(ctx: &RunCtx) -> i32 {
         // learned RTO: first transaction answered after 7 ms, the next one runs on the learned interval
         jobs.push((cfg, 2, 40, true, if thorough { 13 } else { 10 }, TimeDetail::Fine));
     }
+    // histories before the request under test: answered requests and pauses on either side of the 600 s staleness limit
+    // (learn - pause - learn again - send, and the other alternations), four requests, the interval of each compared with
+    // the independent RFC 6298 estimate and its schedule with the monitor
+    {
+        let hist_jobs: Vec<(u64, u32, u32, u64, u64)> = vec![(100, 3, 2, 601_000, 40), (100, 3, 2, 40, 601_000), (500, 2, 16, 601_000, 1_000), (100, 3, 2, 601_000, 601_000)];
+        hist_jobs.par_iter().for_each(|(rto, rc, rm, s1, s2)| {
+            let cfg = Cfg { transport: Transport::Unreliable { rto_ms: *rto, gran_ms: 1, rm: *rm, rc: *rc }, mech: Mech::None, fingerprint: false, max_tx: 10, cred: 0, method: 1 };
+            let mut mon = Mon::new(4, *s1, true, TimeDetail::Coarse);
+            mon.stagger2_ms = *s2;
+            let mut r = Report::new();
+            let st = bfs(&cfg, &apps, &mon, if thorough { 16 } else { 14 }, if thorough { 2_000_000 } else { 400_000 }, &mut r);
+            r.states = st.states;
+            r.transitions = st.transitions;
+            r.sym("history-before-the-request");
+            shared.merge(r);
+        });
+    }
     let per: Vec<_> = jobs
         .par_iter()
         .map(|(cfg, n, stagger, learned, depth, detail)| {
@@ -318,9 +375,9 @@ pub fn run(ctx: &RunCtx) -> i32 {
         rep,
         Finish {
             level: "model_checking",
-            rule: format!("breadth-first exploration of the real client over timer calls at every region representative (each schedule point S_k and the deadline D: -1 ms, exact, +1 ms, midpoints, beyond all deadlines, and 'now') for {} jobs: RTO {{1,37,100,500,70000 (thorough +3000)}} ms x Rc {:?} x Rm {{1,2,3,16,17,32 (thorough +7,15)}} x granularity {{1,10,2000}} ms with one request run to completion; reliable 100 ms / 39.5 s; 2, 3 and 4 requests started 30 / 137 (thorough also 1) ms apart sharing the timer; learned-RTO scenarios (first transaction answered after 7 ms, next request runs on the learned interval read through H1); the default configuration driven by the announced durations must give 0/500/1500/3500/7500/15500/31500 and failure at 39500 ms; deviation-bounded runs (<= {} deviations) on the defaults and on Rc 10 / Rm 32. Monitor in integer nanoseconds: first copy in send_request, further copies only in timer calls, one per call, byte-identical, each consuming a schedule point in (last transmission, now], never at or after D, at most Rc; a timer call with an open slot before D does retransmit; failure exactly in the first timer call at or after D", jobs.len(), rcs, if thorough { 4 } else { 3 }),
+            rule: format!("breadth-first exploration of the real client over timer calls at every region representative (each schedule point S_k and the deadline D: -1 ms, exact, +1 ms, midpoints, beyond all deadlines, and 'now') for {} jobs: RTO {{1,37,100,500,70000 (thorough +3000)}} ms x Rc {:?} x Rm {{1,2,3,16,17,32 (thorough +7,15)}} x granularity {{1,10,2000}} ms with one request run to completion; reliable 100 ms / 39.5 s; 2, 3 and 4 requests started 30 / 137 (thorough also 1) ms apart sharing the timer; learned-RTO scenarios (first transaction answered after 7 ms, next request runs on the learned interval) and four-request histories alternating answered requests with pauses of 40 ms / 1 s / 601 s; the interval of every new request is compared with an independent double-precision RFC 6298 estimate fed by the observed history (samples of requests completed without retransmission, reset after more than 600 s without a request); the default configuration driven by the announced durations must give 0/500/1500/3500/7500/15500/31500 and failure at 39500 ms; deviation-bounded runs (<= {} deviations) on the defaults and on Rc 10 / Rm 32. Monitor in integer nanoseconds: first copy in send_request, further copies only in timer calls, one per call, byte-identical, each consuming a schedule point in (last transmission, now], never at or after D, at most Rc; a timer call with an open slot before D does retransmit; failure exactly in the first timer call at or after D", jobs.len(), rcs, if thorough { 4 } else { 3 }),
             assumptions: vec!["RTO_i is the interval recorded for the transaction at send time (H1); whether it is the right estimate is C15's question".into(), "region representatives instead of all instants".into()],
-            required_symbols: vec!["bfs-configs", "retransmitted-in-slot", "late-call-skipped-slots", "failed-at-deadline", "early-call-no-retransmission", "learned-rto-scenarios", "deviation-runs", "default-schedule-0-500-1500-3500-7500-15500-31500-fail-39500"],
+            required_symbols: vec!["bfs-configs", "retransmitted-in-slot", "late-call-skipped-slots", "failed-at-deadline", "early-call-no-retransmission", "learned-rto-scenarios", "history-before-the-request", "initial-interval-matches-independent-estimate", "deviation-runs", "default-schedule-0-500-1500-3500-7500-15500-31500-fail-39500"],
             min_outcomes: 5,
             exhaustive: true,
             bounds: json!({"jobs": jobs.len()}),
